@@ -30,7 +30,14 @@ fn main() {
             }
             let seed: u64 = std::env::var("VERIF_SEED").ok().and_then(|s| s.trim().parse::<i128>().ok()).map(|v| v as u64).unwrap_or(20261003);
             let cfg = RunCfg { id, thorough: tier == "thorough", seed };
-            exit(check(&cfg));
+            // a panic of the harness itself is reported as inconclusive (2), never as 101 or as a violation
+            match guard(|| check(&cfg)) {
+                Ok(code) => exit(code),
+                Err(p) => {
+                    eprintln!("INCONCLUSIVE property={}: the harness itself panicked: {}", cfg.id, p);
+                    exit(2)
+                }
+            }
         }
         "replay" => exit(replay(&args[2])),
         "fuzz-artifact" => exit(fuzz_artifact(&args[2], args.get(3).map(|s| s.as_str()).unwrap_or(""), args.get(4).map(|s| s.as_str()))),
